@@ -262,9 +262,21 @@ def run(shard, rec, tier, seed):
             L = rng.choice([3, 4, 4, 4, 5, 6, 8])
             b = bytes(rng.choice([rng.randrange(256), 254, 255, 0, 1, 253]) for _ in range(L))
             mon.check_b(b)
-            # also accept other bytes-like types
-            if rng.random() < 0.05:
+            # the documented argument is a bytes-like / sequence of ints: other containers must decode alike
+            r = rng.random()
+            if r < 0.05:
                 mon.check_b(bytearray(b))
+            elif r < 0.08:
+                mon.check_b(memoryview(b))
+            elif r < 0.11:
+                want = ref.decode(b)
+                for alt in (list(b), tuple(b)):
+                    try:
+                        got = mon.dec(alt)
+                    except Exception as ex:
+                        got = repr(ex)
+                    if got != want:
+                        rec.violation("decode-formula", "decode_number(%r) = %r, positional formula gives %d" % (alt, got, want), {"bytes": b, "container": type(alt).__name__})
             seen.add(b)
         rec.case(None, n=len(seen))
         rec.evals += shard["n"] - len(seen)
